@@ -316,7 +316,7 @@ def corpus():
 
 
 def gen_cases(rng, tier):
-    n = {"quick": 260, "thorough": 20000, "search": 1500}[tier]
+    n = {"quick": 260, "thorough": 42000, "search": 1500}[tier]
     for _ in range(n):
         yield gen_case(rng, rng.choice([10, 20, 30]))
     if tier == "quick":
